@@ -81,18 +81,64 @@ def two_tables_reopen_insert(h):
     return len({e["n"] for e in ev[:k] if e["a"] == "ins"}) >= 2 and any(e["a"] == "ins" for e in ev[k:])
 
 
+def _acts(h):
+    return [e["a"] for e in h if e["a"] != "obs"]
+
+
+def _after(acts, x, y, n=1):
+    """some x is followed by at least n y"""
+    return any(a == x and acts[i + 1:].count(y) >= n for i, a in enumerate(acts))
+
+
+def emptied_then_compacted(h):
+    """a table with two row-sets is emptied by DELETE, a compaction pass runs over it (explicitly or at shutdown), and
+    afterwards the table is written again or dropped, with a reopen in between or after"""
+    ins = {}
+    stage = 0
+    for e in h:
+        if e["a"] == "ins":
+            ins[e["n"]] = ins.get(e["n"], 0) + 1
+            if stage == 2:
+                return True
+        elif e["a"] == "obs" and stage == 0:
+            if any(v["k"] == "table" and not v["rows"] and ins.get(n, 0) >= 2 for n, v in e["adb"].items()):
+                stage = 1
+        elif e["a"] in ("compact", "shutdown") and stage >= 1:
+            stage = 2 if (stage == 1 and e["a"] == "shutdown") or stage == 2 else 1.5
+        elif e["a"] == "dt" and stage >= 1.5:
+            return any(x["a"] == "shutdown" for x in h[h.index(e):])
+        if stage == 1.5 and e["a"] == "shutdown":
+            stage = 2
+    return False
+
+
+STRATA = [
+    emptied_then_compacted,
+    lambda h: "dtx" in _acts(h),                                              # a refused DROP TABLE
+    two_tables_reopen_insert,
+    lambda h: _after(_acts(h), "dt", "shutdown", 2),                          # DROP, then two reopen cycles
+    lambda h: _after(_acts(h), "dt", "ct") and _after(_acts(h), "ct", "shutdown") and _acts(h).count("ct") >= 3,
+    lambda h: _after(_acts(h), "compact", "shutdown", 2) and "del" in _acts(h),   # compaction, then two reopen cycles
+    lambda h: _after(_acts(h), "compact", "dt") and _after(_acts(h), "dt", "shutdown"),
+    lambda h: _after(_acts(h), "del", "compact") and _after(_acts(h), "compact", "ins") and "shutdown" in _acts(h),
+    lambda h: _after(_acts(h), "shutdown", "del") and _after(_acts(h), "del", "shutdown"),   # DELETE between two reopens
+    # a DELETE, two reopen cycles (each shutdown runs a compaction pass), then new rows
+    lambda h: _after(_acts(h), "del", "shutdown", 2) and "ins" in _acts(h)[len(_acts(h)) - _acts(h)[::-1].index("shutdown"):],
+    lambda h: _after(_acts(h), "del", "dt") and _after(_acts(h), "dt", "shutdown") and _acts(h).count("ins") >= 2,
+]
+
+
 def score(h):
     """Prefer histories that chain the mechanisms: deletes before compaction, compaction before
     drop / reopen, several reopens."""
     acts = [e["a"] for e in h if e["a"] != "obs"]
-    sc = len(set(acts))
+    sc = len(set(acts) - {"cf", "dtx"})      # (catalog-only statements do not add to the variety that matters here)
     def after(x, y):
         return any(a == x and y in acts[i + 1:] for i, a in enumerate(acts))
     sc += 2 * after("del", "compact") + 2 * after("compact", "dt") + after("compact", "shutdown")
     sc += after("compact", "ins") + after("dt", "ct") + acts.count("shutdown")
     sc += 2 * (after("compact", "shutdown") and after("shutdown", "ins"))
-    # a refused DROP TABLE (a view selects from the table), and the drop that succeeds once a reopen forgot the view
-    sc += 2 * after("cv", "dtx") + 2 * (after("cv", "shutdown") and after("shutdown", "dt"))
+    # (refused DROP TABLEs and two-table reopen histories have shares of their own in generate())
     return sc
 
 
@@ -130,17 +176,16 @@ def generate(pid, tier, seed, known_devs, stmts, boots, views, nmax, names=("a",
         hot = hot[: nmax // 4]
         rest = [h for h in maximal if not is_hot(h)]
         rnd.shuffle(rest)
-        # a share for the refused DROP TABLE (rare among the maximal histories)
-        refused = [h for h in rest if any(e["a"] == "dtx" for e in h)][: max(2, nmax // 10)]
-        hot += refused
-        rest = [h for h in rest if not any(h is x for x in refused)]
-        # ... and for histories that write two tables, reopen and write again
-        two = [h for h in rest if two_tables_reopen_insert(h)][: max(2, nmax // 8)]
-        hot += two
-        rest = [h for h in rest if not any(h is x for x in two)]
+        # strata: a share for every mechanism-chaining pattern (each is rare among the maximal histories, and a
+        # sample by score alone lets one pattern crowd out the others)
+        share = max(2, nmax // 16)
+        for pattern in (STRATA if nmax >= 100 else ()):       # (C04 keeps few histories: each is crashed at every point)
+            got = [h for h in rest if pattern(h)][:share]
+            hot += got
+            rest = [h for h in rest if not any(h is x for x in got)]
         rest.sort(key=lambda h: -score(h))
-        head = rest[: nmax // 2]
-        tail = rest[nmax // 2:]
+        head = rest[: nmax // 4]
+        tail = rest[nmax // 4:]
         rnd.shuffle(tail)
         maximal = hot + head + tail[: max(0, nmax - len(hot) - len(head))]
     nview = sum(1 for h in maximal if any(e["a"] == "cv" for e in h))
@@ -435,7 +480,7 @@ def run_history_check(pid, args, views, stmts_q, stmts_t, boots, level_note, gri
     names = ("a", "b")
     big = tier == "thorough"
     hists, gen = generate(pid, tier, seed, known_devs, stmts_t if big else stmts_q, boots, views,
-                          4000 if big else 160, names)
+                          4000 if big else 200, names)
     cases, nontriv = replay_histories(v, pid, hists, seed, names, grid if big else grid[:1] + grid[2:3] + grid[4:5] + grid[6:7], pid)
     rc = v.finish()
     cov = {"states": sum(r["distinct"] for r in mc_runs),
